@@ -29,9 +29,17 @@ Proof.
   rewrite Hl. change (Z.to_nat 8) with 8%nat. cbn [firstn skipn].
   change (4 =? C2S_SET_PIXEL_FORMAT) with false. change (4 =? C2S_SET_ENCODING) with false.
   change (4 =? C2S_FRAMEBUFFER_UPDATE_REQUEST) with false. change (4 =? C2S_KEY_EVENT) with true. cbv iota.
-  unfold unpackZs, fmt_loggingproxy_RFBServer_handle_protocol_5.
+  unfold unpackZs, fmt_loggingproxy_RFBServer_handle_protocol_4.
   cbn [unpack fsize take Z.leb Z.compare Z.sub Z.add Z.opp Z.pos_sub Pos.compare Pos.compare_cont Pos.pred_double unpack1 map].
   rewrite be_dec4, U.
   assert (Hd1 : be_dec [down] = down) by (unfold be_dec; cbn; lia). rewrite Hd1.
   unfold record_key, with_buf. cbn [r_buf r_handler r_need r_pwreq r_mouse r_last]. rewrite Hname, ?Hh, ?Hn. reflexivity.
+Qed.
+
+(** the text of a ClientCutText message is skipped exactly, whatever its length and content *)
+Theorem cuttext_skipped : forall s now n text rest,
+  r_handler s = HCutText n -> len text = n -> r_buf s = text ++ rest ->
+  handle s now = HOk [RCutText] (mk_rstate rest HProtocol 1 (r_pwreq s) (r_mouse s) (r_last s)).
+Proof.
+  intros s now n text rest Hh Hl Hb. unfold handle. subst n. rewrite Hh, Hb, take_app_exact. reflexivity.
 Qed.
